@@ -891,6 +891,7 @@ func judge(c engine.Case) engine.Outcome {
 		text = d.Body.JSON()
 	}
 	sh := shapeOf(d)
+	counters.Add("cases_"+d.Fam, 1)
 	desc := func() string {
 		return fmt.Sprintf("spec: %s\nsource (%s):\n%s", d.Spec.String(), d.Syntax, text)
 	}
@@ -1011,6 +1012,13 @@ func judge(c engine.Case) engine.Outcome {
 					"Expand+Decode = %s\nwrite-out     = %s   (%s)\nwrite-out:\n%s\n%s", vfmt.V(impl.val), vfmt.V(ref.val), how, woText, desc())
 			}
 			counters.Add("values_compared", 1)
+			counters.Add("values_compared_"+d.Fam, 1)
+			if strings.Contains(sh.collKind, "partly-unknown") {
+				counters.Add("values_compared_partly_unknown_collection", 1)
+				if !iv.IsWhollyKnown() {
+					counters.Add("values_compared_partly_unknown_result", 1)
+				}
+			}
 			sig = sh.Full() + ":" + vfmt.V(iv)
 		} else {
 			counters.Add("error_agreements", 1)
